@@ -42,9 +42,32 @@ def behaviours_of(spec: Dict[str, Any]) -> Dict[str, Any]:
     return spec.get('behaviours') or {}
 
 
+class FalsyContext:
+    """a context object that is falsy (like an empty mapping / a settings object defining __len__)"""
+
+    def __bool__(self) -> bool:
+        return False
+
+
+CTX_KINDS = ['object', 'empty-dict', 'empty-list', 'falsy-object', 'none']
+
+
+def make_context(kind: str = 'object') -> Any:
+    """the server-side context handed to dispatch(): a fresh object whose identity the generated methods check"""
+    if kind == 'empty-dict':
+        return {}
+    if kind == 'empty-list':
+        return []
+    if kind == 'falsy-object':
+        return FalsyContext()
+    if kind == 'none':
+        return None
+    return object()
+
+
 def observe(spec: Dict[str, Any], dispatcher: Any = None, text: Optional[str] = None, **dispatcher_kwargs: Any) -> Observation:
     kind = spec['dispatcher']
-    sentinel = object()
+    sentinel = make_context(spec.get('ctx_value', 'object'))
     hm.RT.reset(sentinel, behaviours_of(spec), error_builder=build_error)
     if dispatcher is None:
         kw = dict(dispatcher_kwargs)
